@@ -251,6 +251,9 @@ impl<'brand> Context<'brand> {
 
     /// Locks the underlying slab mutex.
     fn lock(&self) -> MutexGuard<'_, WithGhostToken<'brand, ContextInner<'brand>>> {
+        #[cfg(feature = "verif-hooks")]
+        return crate::verif_hooks::lock_with_sched(&self.inner);
+        #[cfg(not(feature = "verif-hooks"))]
         self.inner.lock().unwrap()
     }
 }
